@@ -732,6 +732,12 @@ pub fn run_main(scn: &dyn Scenario, thorough: bool, seed: u64, workers: usize) -
         println!("HARNESS-ERROR: nothing was evaluated");
         return 2;
     }
+    // a check that stopped deciding must not look like a pass: on the unchanged tree at most 1-2 % of the
+    // runs of any property are inconclusive (step cap, inapplicable case)
+    if exit_code == 0 && inconclusive * 10 > evaluations {
+        println!("HARNESS-ERROR: {} of {} runs were inconclusive (> 10 %): the check does not decide enough to claim the property held; reasons: {:?}", inconclusive, evaluations, inconclusive_why.iter().take(4).collect::<Vec<_>>());
+        return 2;
+    }
     exit_code
 }
 
